@@ -187,21 +187,58 @@ func chanHandler(req *sb.Req) *sb.Rep {
 	}
 	parked := map[int]string{}
 	finished := map[int]bool{}
+	infra := ""
+	// settle waits for quiescence: every goroutine of the scenario is parked at one of our gates,
+	// finished, or blocked inside the channel implementation (goroutine state read from the runtime,
+	// no timing assumption), and no park/finish event is in flight.
 	settle := func() {
+		guard := time.Now().Add(10 * time.Second)
 		for {
-			select {
-			case ev := <-s.events:
-				if ev.point == "" {
-					finished[ev.g] = true
-					delete(parked, ev.g)
-				} else {
-					parked[ev.g] = ev.point
+			drained := false
+			for !drained {
+				select {
+				case ev := <-s.events:
+					if ev.point == "" {
+						finished[ev.g] = true
+						delete(parked, ev.g)
+					} else {
+						parked[ev.g] = ev.point
+					}
+				default:
+					drained = true
 				}
-				if len(parked)+len(finished) == total {
-					return // everybody is parked or done: nothing can happen until the next release
-				}
-			case <-time.After(T):
+			}
+			if len(parked)+len(finished) == total {
 				return
+			}
+			s.mu.Lock()
+			registered := len(s.byGoid)
+			busy := false
+			if registered+len(finished) < total {
+				busy = true // somebody has not even started yet
+			} else {
+				st := goroutineStates()
+				for gid, g := range s.byGoid {
+					if _, isParked := parked[g.id]; isParked || finished[g.id] {
+						continue
+					}
+					if state, ok := st[gid]; !ok || !blockedState(state) {
+						busy = true
+						break
+					}
+				}
+			}
+			s.mu.Unlock()
+			if !busy && len(s.events) == 0 {
+				return
+			}
+			if time.Now().After(guard) {
+				infra = "scheduler: no quiescence within 10s"
+				return
+			}
+			runtime.Gosched()
+			if T > 0 {
+				time.Sleep(T / 8)
 			}
 		}
 	}
@@ -247,6 +284,12 @@ func chanHandler(req *sb.Req) *sb.Rep {
 		s.mu.Unlock()
 		gates[id].gate <- struct{}{}
 		settle()
+		if infra != "" {
+			break
+		}
+	}
+	if infra != "" {
+		return &sb.Rep{Outcome: sb.Infra, Msg: infra}
 	}
 	// finalisation: close (if needed), drain, join
 	s.evMu.Lock()
@@ -275,15 +318,22 @@ func chanHandler(req *sb.Req) *sb.Rep {
 	done := make(chan struct{})
 	go func() { wg.Wait(); close(done) }()
 	// goroutines still parked at a hook point must be released to finish
-	deadline := time.After(2 * time.Second)
+	deadline := time.After(10 * time.Second)
 joining:
 	for {
 		select {
 		case ev := <-s.events:
 			if ev.point == "" {
 				finished[ev.g] = true
-			} else if g := gates[ev.g]; g != nil {
-				go func() { g.gate <- struct{}{} }()
+			} else {
+				s.mu.Lock()
+				for _, g := range s.byGoid {
+					gates[g.id] = g
+				}
+				s.mu.Unlock()
+				if g := gates[ev.g]; g != nil {
+					go func() { g.gate <- struct{}{} }()
+				}
 			}
 		case <-done:
 			break joining
@@ -313,6 +363,49 @@ joining:
 	b, _ := json.Marshal(&s.out)
 	s.evMu.Unlock()
 	return &sb.Rep{Outcome: sb.OK, Data: b}
+}
+
+// goroutineStates reads "goroutine N [state...]:" headers of all goroutines.
+func goroutineStates() map[int64]string {
+	buf := make([]byte, 1<<16)
+	for {
+		n := runtime.Stack(buf, true)
+		if n < len(buf) {
+			buf = buf[:n]
+			break
+		}
+		buf = make([]byte, 2*len(buf))
+	}
+	out := map[int64]string{}
+	for _, line := range bytes.Split(buf, []byte("\n")) {
+		if !bytes.HasPrefix(line, []byte("goroutine ")) {
+			continue
+		}
+		rest := line[len("goroutine "):]
+		sp := bytes.IndexByte(rest, ' ')
+		lb, rb := bytes.IndexByte(rest, '['), bytes.LastIndexByte(rest, ']')
+		if sp < 0 || lb < 0 || rb < lb {
+			continue
+		}
+		id, err := strconv.ParseInt(string(rest[:sp]), 10, 64)
+		if err != nil {
+			continue
+		}
+		out[id] = string(rest[lb+1 : rb])
+	}
+	return out
+}
+
+// blockedState: the goroutine cannot make progress until somebody else acts.
+func blockedState(st string) bool {
+	if i := strings.IndexByte(st, ','); i >= 0 {
+		st = st[:i]
+	}
+	switch st {
+	case "running", "runnable", "syscall", "sleep", "waiting", "idle", "dead", "copystack", "preempted":
+		return false
+	}
+	return true
 }
 
 func (s *chanSched) curStep() int {
